@@ -19,14 +19,14 @@ def install(reg: Registry):
     # ---- AttackGraphNode.full_name (property)
     reg.add(Contract(MN + ':AttackGraphNode.full_name', {'self': Obj(NODE)}, returns=T.str, is_property=True, pure=True,
                      requires=lambda c: [('asset-truthy', z3.Or(is_VNone(c.old.f('asset', c.self)), is_VRef(c.old.f('asset', c.self))))],
-                     ensures=lambda c: [('def', c.res == full_name(c.old, c.self))],
+                     ensures=lambda c: [('def', c.res == full_name(c.old, c.self))], props=('C02', 'C09'),
                      note='asset truthiness: a library asset has __len__ >= 2 (PJS)'))
 
     # ---- is_compromised / is_compromised_by
     reg.add(Contract(MN + ':AttackGraphNode.is_compromised', {'self': Obj(NODE)}, returns=T.bool, pure=True,
-                     ensures=lambda c: [('def', c.res == (c.old.len(c.old.f('compromised_by', c.self)) > 0))]))
+                     ensures=lambda c: [('def', c.res == (c.old.len(c.old.f('compromised_by', c.self)) > 0))], props=('C11',)))
     reg.add(Contract(MN + ':AttackGraphNode.is_compromised_by', {'self': Obj(NODE), 'attacker': Obj(ATT)}, returns=T.bool,
-                     pure=True,
+                     pure=True, props=('C11', 'C12'),
                      ensures=lambda c: [('def', c.res == (cb(c.old, c.self, c.attacker) > 0))],
                      note='membership is identity on attackers of one graph (EQ-ID)'))
 
@@ -39,9 +39,9 @@ def install(reg: Registry):
         base = z3.And(h.f('type', c.self) == str_const('defense'), z3.Not(sup))
         return z3.And(base, is_one if want else z3.Not(is_one))
     reg.add(Contract(MN + ':AttackGraphNode.is_enabled_defense', {'self': Obj(NODE)}, returns=T.bool, pure=True,
-                     ensures=lambda c: [('def', c.res == enabled(c, True))]))
+                     ensures=lambda c: [('def', c.res == enabled(c, True))], props=('C12',)))
     reg.add(Contract(MN + ':AttackGraphNode.is_available_defense', {'self': Obj(NODE)}, returns=T.bool, pure=True,
-                     ensures=lambda c: [('def', c.res == enabled(c, False))]))
+                     ensures=lambda c: [('def', c.res == enabled(c, False))], props=('C12',)))
 
     # ---- Attacker.compromise / undo_compromise (C11)
     def comp_requires(c):
